@@ -83,6 +83,13 @@ Theorem C12_cancel_attribution : forall s names reports n o b,
 Proof. exact cancel_attribution. Qed.
 Print Assumptions C12_cancel_attribution.
 
+(* placement packages are matched by position: with distinct orders in the package, the i-th report decides the i-th order and nothing else
+   (undecided reports - TIMEOUT, async PENDING - leave it as it was) *)
+Theorem C12_place_attribution : forall s names reports n r, NoDup (pkg_orders s names) -> In (n, r) (zip (pkg_orders s names) reports) ->
+  ostat (exec_place s names reports) n = place_outcome r (ostat s n).
+Proof. exact place_attribution. Qed.
+Print Assumptions C12_place_attribution.
+
 (* non-vacuity: two orders resting at the exchange, cancel package for both, reports reversed, one FAILURE *)
 Definition ex_s : lstate :=
   lrun (lstate0 COMPLETE_STATUS)
